@@ -47,6 +47,7 @@ func genConfigDiff(r *vk.RNG, a *app.App, sid string) app.Config {
 	cfg.PersisterContent = r.Chance(1, 4)
 	cfg.Debug = r.Chance(1, 6)
 	cfg.StoreSession = r.Chance(1, 3)
+	cfg.FuncUsesStore = r.Chance(1, 4)
 	return cfg
 }
 
